@@ -114,8 +114,11 @@ def gen_set_exprs(rng, n):
             el = [repr(s) for s in rng.sample(strs, 3)] + [str(rng.randint(0, 9))]
         elif k < 0.6:
             el = ["frozenset([" + ", ".join(repr(s) for s in rng.sample(strs, rng.randint(0, 3))) + "])" for _ in range(rng.randint(1, 4))]
-        elif k < 0.7:
+        elif k < 0.65:
             el = ["(" + repr(rng.choice(strs)) + ", " + str(rng.randint(0, 3)) + ")" for _ in range(rng.randint(1, 4))]
+        elif k < 0.7:
+            # tuples are compared component-wise: with a frozenset component they are only partially ordered and never raise
+            el = ["(frozenset([" + repr(s) + "]), " + str(rng.randint(0, 1)) + ")" for s in rng.sample(strs, rng.randint(2, 5))]
         elif k < 0.8:
             el = [rng.choice(["Color.red", "Color.green", "None", "1", "'a'", "b'x'"]) for _ in range(rng.randint(1, 4))]
         else:
